@@ -980,7 +980,40 @@ func placeholderCase(r *vh.Rng) bindCase {
 	return b
 }
 
+// podsFullCase (directed): a node with plenty of cpu and memory whose POD capacity is nearly used up;
+// several small pods are aimed at it.  The Binding re-check tests every dimension of the request,
+// 'pods' included: only as many calls are admitted as pod slots are left.
+func podsFullCase(r *vh.Rng, agent bool) bindCase {
+	var b bindCase
+	slots := int64(r.Range(1, 2))
+	have := int64(r.Range(1, 3))
+	b.Nodes = []sched.NodeSpec{{ID: 1, Has: true, CPU: 16000, Mem: 64 << 20, Pods: have + slots}}
+	tid := int64(0)
+	for k := int64(0); k < have; k++ {
+		tid++
+		b.Tasks = append(b.Tasks, sched.TaskSpec{ID: tid, Job: 1, Role: 1, CPU: 500, Mem: 1 << 20, Status: sched.SRunning, Node: 1})
+	}
+	np := int(slots) + r.Range(1, 3)
+	for k := 0; k < np; k++ {
+		tid++
+		ts := sched.TaskSpec{ID: tid, Job: 1, Role: 1, CPU: int64(r.Range(0, 2)) * 250, Mem: 1 << 19, Status: sched.SPending}
+		b.Tasks = append(b.Tasks, ts)
+		b.Items = append(b.Items, item{Kind: itBind, Bind: [3]int64{1, tid, 1}})
+	}
+	b.Jobs = []sched.JobSpec{{ID: 1, Queue: 1}}
+	b.Workers = int64(r.Range(1, 4))
+	b.Exact = r.Chance(1, 2)
+	_ = agent
+	return b
+}
+
 func genBind(rng *vh.Rng, n int, emit func(id string, sel int, in []int64, kind string, nontrivial bool, desc any)) {
+	qr := rng.Fork()
+	for i := 0; i < max(4, n/50); i++ {
+		b := podsFullCase(qr.Fork(), false)
+		emit(fmt.Sprintf("bind-podsfull-%d", i), 2, b.enc(), "bind/cache/podsfull", true,
+			map[string]any{"directed": "pod capacity nearly used up, more small pods than slots", "items": len(b.Items), "workers": b.Workers})
+	}
 	pr := rng.Fork()
 	for i := 0; i < max(3, n/60); i++ {
 		b := placeholderCase(pr.Fork())
